@@ -250,3 +250,15 @@ Qed.
 
 Theorem chk13_monitor lvl c h : wf c = true -> 3 <= lvl -> accept lvl c h = true -> mon_ok chk13 c h = true.
 Proof. intros W Hl. apply mon_sound. intros h0 s e s' Hr Hs. eapply chk13_holds; eauto. Qed.
+
+(* a handler is never cancelled before it has started: every job below a finished broadcast has
+   actually received co_shutdown() (its handler ran: HDone, or was cancelled while running) *)
+Theorem handler_never_gone lvl c h s j s' : wf c = true -> 3 <= lvl -> Reach lvl c h s ->
+  step lvl c s (EHGone j) = Some s' -> False.
+Proof.
+  intros W Hl Hr Hs. destruct (InvE_reach lvl c h s W Hl Hr) as [_ I8].
+  apply step_inv in Hs. destruct Hs as [_ Hg]. cbn [forallb guards] in Hg.
+  apply andb_true_iff in Hg. destruct Hg as [_ Hg]. apply andb_true_iff in Hg. destruct Hg as [G _].
+  rewrite holds3 in G by lia. destruct (hs (Hd s j)) eqn:E; try discriminate.
+  rewrite (k_fifo c s I8 j E) in G. discriminate.
+Qed.
